@@ -408,11 +408,11 @@ func (c *FCFG) posOf(n ast.Node) (cfgPos, bool) {
 
 // Search describes a forward path query.
 type Search struct {
-	Target       func(n ast.Node) bool              // reaching such a node ends the search with found=true
-	Barrier      func(n ast.Node) bool              // a path stops at such a node
-	EdgeBarrier  func(b *cfgBlock, succ int) bool  // a path cannot take such an edge
-	TargetPos    *cfgPos                            // reaching this CFG position ends the search with found=true
-	ExitIsTarget bool                               // reaching a function exit counts as found
+	Target       func(n ast.Node) bool                  // reaching such a node ends the search with found=true
+	Barrier      func(n ast.Node) bool                  // a path stops at such a node
+	EdgeBarrier  func(b *cfgBlock, succ int) bool       // a path cannot take such an edge
+	TargetPos    *cfgPos                                // reaching this CFG position ends the search with found=true
+	ExitIsTarget bool                                   // reaching a function exit counts as found
 	ExitFilter   func(last ast.Node, b *cfg.Block) bool // if set, only exits for which it returns true count
 }
 
@@ -569,7 +569,7 @@ func (c *FCFG) DominatedByCond(site ast.Node, pass func(core ast.Expr, coreTrue 
 		return false
 	}
 	found, _ := c.Forward(c.Entry(), Search{
-		TargetPos: &sp,
+		TargetPos:   &sp,
 		EdgeBarrier: func(b *cfg.Block, succ int) bool { return edgePasses(b, succ, pass) },
 	})
 	return !found
@@ -614,7 +614,7 @@ func (c *FCFG) DominatedByCondOrNode(site ast.Node, pass func(core ast.Expr, val
 		return false
 	}
 	found, _ := c.Forward(c.Entry(), Search{
-		TargetPos: &sp,
+		TargetPos:   &sp,
 		Barrier:     guard,
 		EdgeBarrier: func(b *cfg.Block, succ int) bool { return edgePasses(b, succ, pass) },
 	})
@@ -630,7 +630,7 @@ func (c *FCFG) DominatedByNode(site ast.Node, guard func(n ast.Node) bool) bool 
 	}
 	found, _ := c.Forward(c.Entry(), Search{
 		TargetPos: &sp,
-		Barrier: guard,
+		Barrier:   guard,
 	})
 	return !found
 }
